@@ -836,9 +836,18 @@ class Referable(HasExtension, metaclass=abc.ABCMeta):
         :param update_source: Update the source attribute with the other's source attribute. This is not propagated
                               recursively
         """
+        from .submodel import SubmodelElementList
+        # the id_short of an item of a SubmodelElementList is generated and managed by the list: it is kept
+        keep_id_short = isinstance(self.parent, SubmodelElementList)
+        if self.parent is not None and not keep_id_short and other.id_short != self.id_short:
+            # this object sits in a namespace: take the new id_short through the setter, which re-keys the object in
+            # its parent (or refuses a collision / an unset id_short) before anything has been changed
+            self.id_short = other.id_short
         for name, var in vars(other).items():
             # do not update the parent, namespace_element_sets or source (depending on update_source parameter)
             if name in ("parent", "namespace_element_sets") or name == "source" and not update_source:
+                continue
+            if name == "_id_short" and keep_id_short:
                 continue
             if isinstance(var, NamespaceSet):
                 # update the elements of the NameSpaceSet
